@@ -3,6 +3,7 @@ import CookModel.Lemmas.Blocks
 import CookModel.Lemmas.MetaAgree
 import CookModel.Lemmas.CollectorAgree
 import CookModel.Lemmas.MetaFront
+import CookModel.Lemmas.MetaDiagsParser
 /-
   C14  Metadata-only parsing agrees with full parsing.
 
@@ -278,6 +279,55 @@ theorem C14_agree (env : Env) (input : Str)
   have e := analysis_agree_all env input r1 r2 h1 h2
   exact ⟨congrArg MS.metaMap e, congrArg MS.metaLocs e, congrArg MS.servings e,
     congrArg MS.oldStyleUsed e, congrArg MS.frontMatter e, congrArg MS.oldStyle e⟩
+
+/-- The DIAGNOSTICS about metadata agree as well, for inputs without front matter: whenever both
+    `parse` and `parse_metadata` have output, the analysis-stage diagnostics of the kinds
+    `config-invalid-value`, `config-unknown-key`, `std-unsupported-value`, `time-overridden` and
+    `meta-deprecated` are the same in both reports — same severity, same labels, same order
+    (`Diag.isMeta` is that filter).  Ingredients: no other event of the full parser makes the
+    collector emit a diagnostic of these kinds (frame sweep over the collector, `pd_processEvent`),
+    every warning event of either parser is a parse-stage diagnostic (`pullEvents_warnOK`), and the
+    diagnostics a `Metadata` event causes depend only on the metadata collected so far
+    (`sd_metadataA`).
+    Partial: inputs WITH front matter are not covered; there the full parser still reports
+    `config-*` diagnostics for `>> [key]: value` lines under MODES, which the metadata-only parser
+    never sees, so only the other three kinds can agree (not proved here). -/
+theorem C14_metadata_diagnostics_agree_partial (env : Env) (input : Str)
+    (h : parseFrontmatter env.cs input = none)
+    (r1 r2 : Col α) (h1 : (parseRecipe (α := α) env input).output = some r1)
+    (h2 : (parseMetadata (α := α) env input).output = some r2) :
+    r1.diags.toList.filter Diag.isMeta = r2.diags.toList.filter Diag.isMeta :=
+  congrArg MD.ds (analysis_agree_md env input h r1 r2 h1 h2)
+
+/-- the pieces, as statements about the collector: (1) an event that is neither `Metadata` nor front
+    matter (a parser warning being a parse-stage diagnostic) adds no metadata diagnostic … -/
+theorem C14_other_events_add_no_metadata_diagnostic (env : Env) (input : Str) (ev : Ev α)
+    (h : ev.isKey = false) (hw : ∀ d, ev = .warning d → d.stage = .parse) (s : Col α) :
+    ((processEvent env input ev s).2).diags.toList.filter Diag.isMeta = s.diags.toList.filter Diag.isMeta :=
+  congrArg MD.ds ((pd_processEvent s.md env input ev h hw).run s rfl)
+
+/-- … (2) every warning event of the full parser and of the metadata-only parser carries a
+    parse-stage diagnostic … -/
+theorem C14_parser_warnings_are_parse_stage (cs : CharSpec) (ext : Ext) (input : List Char) (d : Diag) :
+    (Ev.warning d ∈ (pullEvents (α := α) cs ext input).1.toList → d.stage = .parse) ∧
+    (Ev.warning d ∈ (pullMetaEvents (α := α) cs ext input).1.toList → d.stage = .parse) :=
+  ⟨fun h => pullEvents_warnOK cs ext input _ h d rfl, fun h => pullMetaEvents_warnOK cs ext input _ h d rfl⟩
+
+/-- … and (3) the metadata diagnostics a `Metadata` event adds depend only on the metadata part of
+    the collector and the metadata diagnostics so far. -/
+theorem C14_metadata_event_diagnostics_depend_on_metadata_only (env : Env) (k v : Text) (s s' : Col α)
+    (h : s.ms = s'.ms)
+    (hd : s.diags.toList.filter Diag.isMeta = s'.diags.toList.filter Diag.isMeta) :
+    ((processEvent (α := α) env [] (.metadata k v) s).2).diags.toList.filter Diag.isMeta =
+    ((processEvent (α := α) env [] (.metadata k v) s').2).diags.toList.filter Diag.isMeta := by
+  have hmd : s.md = s'.md := by simp only [Col.md, h, hd]
+  exact congrArg MD.ds ((sd_metadataA env k v).run s s' hmd).2
+
+/-! the filter is not trivial: it keeps the metadata kinds and drops the others and parse-stage ones -/
+example : Diag.isMeta ⟨.warning, .analysis, "meta-deprecated", [⟨0, 7⟩]⟩ = true ∧
+    Diag.isMeta ⟨.warning, .analysis, "std-unsupported-value", []⟩ = true ∧
+    Diag.isMeta ⟨.warning, .analysis, "redundant-new", []⟩ = false ∧
+    Diag.isMeta ⟨.warning, .parse, "empty-metadata-value", []⟩ = false := by decide
 
 /-! non-vacuity of the front-matter case.  (`lexFrom` is defined by well-founded recursion, so whole
     inputs with a non-empty cooklang part do not reduce by `rfl`; the pieces do.) -/
